@@ -102,8 +102,10 @@ func Templates() []Program {
 		P("r(d/x)d(d/x)w(a)", Begin(), Get("d/x"), Del("d/x"), Put("a", "15"), Commit()),
 		// the same (prefix, after) listed more than once with different limits: every
 		// listing must stay valid until commit, not only the latest / the largest
-		P("lp(d/,,2)lp(d/,,1)w(b)", Begin(), ListPage("d/", "", 2), ListPage("d/", "", 1), Put("b", "16"), Commit()),
-		P("lp(d/,,1)lp(d/,,2)w(b)", Begin(), ListPage("d/", "", 1), ListPage("d/", "", 2), Put("b", "17"), Commit()),
+		// (run from RichInitial, where d/ holds three entries, against writers that
+		// change the third entry or insert before it)
+		P("lp(d/,,3)lp(d/,,1)w(b)", Begin(), ListPage("d/", "", 3), ListPage("d/", "", 1), Put("b", "16"), Commit()),
+		P("lp(d/,,1)lp(d/,,3)w(b)", Begin(), ListPage("d/", "", 1), ListPage("d/", "", 3), Put("b", "17"), Commit()),
 		P("l(d/)lp(d/,,1)w(b)", Begin(), List("d/"), ListPage("d/", "", 1), Put("b", "18"), Commit()),
 		P("pput(a)", PPut("a", "20")),
 		P("pdel(a)", PDel("a")),
@@ -111,7 +113,25 @@ func Templates() []Program {
 		P("pget(a)", PGet("a")),
 		P("pput(b)pget(a)", PPut("b", "22"), PGet("a")),
 		P("pput(b,'')", PPut("b", "")),
+		P("pdel(d/z)", PDel("d/z")),
+		P("pput(d/yy)", PPut("d/yy", "23")),
 	}
+}
+
+// RichInitial is the start state for the repeated-listing programs.
+func RichInitial() map[string]string {
+	return map[string]string{"a": "0", "d/x": "0", "d/y": "0", "d/z": "0"}
+}
+
+// RepeatedListing reports whether the program lists the same prefix more than once.
+func RepeatedListing(p Program) bool {
+	n := 0
+	for _, st := range p.Steps {
+		if st.Op == "list" || st.Op == "listpage" {
+			n++
+		}
+	}
+	return n >= 2
 }
 
 // ---- observations and reference ------------------------------------------------
